@@ -387,3 +387,51 @@ def _c03(work, v, tier, seed):
 
 PIPELINES["C03"] = _c03
 SIMPLE_REPLAY["parse"] = ("Trace_Parse", parse_account)
+
+
+def dist_account(v, trace, res, prop):
+    evs = vf.read_events(trace)
+    for e in evs:
+        mine = (e["t"] == "rel") == (prop == "C08") or (prop == "C08" and e["t"] == "dist")
+        if not mine:
+            continue
+        v.count_case(vf.digest({k: e.get(k) for k in ("rows", "o", "r", "rel", "what", "cpus")}))
+        if e["t"] == "dist":
+            v.sample({"rows": [_s(r) for r in e["rows"]][:3], "options": e["o"], "outcome": e["kind"]})
+        else:
+            v.sample({"relation": e["what"], "rows": [_s(r) for r in e["rows"]][:3], "options": e["o"]})
+    v.add_trace(res, 1, "trace:Trace_Dist")
+    for b in res.get("bad", []):
+        e = evs[b["i"] - 1]
+        if os.environ.get("VERIF_DEBUG"):
+            vf.log("bad: %s %s" % (b["failing"], json.dumps({k: e.get(k) for k in ("t", "id", "o", "r", "cpus", "kind", "msg", "what", "m", "m1", "m2")})[:700]))
+            vf.log("     rows: %s" % [_s(r) for r in e["rows"]])
+        if e["t"] == "rel":
+            owner = "C08"
+        else:
+            owner = "C08" if set(b["failing"]) <= {"returns"} else "C07"
+        if owner != prop:
+            continue
+        desc = {"op": e.get("what", "DistMatrix"), "failing": sorted(b["failing"]), "kind": e.get("kind", ""), "model": e["o"]["model"],
+                "options": e["o"], "rows": [_s(r) for r in e["rows"]], "msg": e.get("msg", "")}
+        v.finding(desc, {"family": "dist", "event": {k: e.get(k) for k in ("rows", "o", "r", "cpus", "what", "rel", "k", "perm")}})
+
+
+def _dist(prop):
+    def run(work, v, tier, seed):
+        vf.build_driver(work)
+        cases = None
+        if prop == "C07":
+            cfg = write_cfg(work, "Gen_Dist_%s.cfg" % tier, spec=None, invariants=["Emit"], constants={"Scope": "quick" if tier == "quick" else "full"})
+            cases, n, r = vf.tlc_gen(work, "Gen_Dist", cfg, workers=8)
+            if n == 0:
+                raise vf.ToolingError("Gen_Dist produced no case")
+            v.add_mc(r, "gen:Dist")
+        trace = vf.drive(work, "dist", cases=cases, n=400 if tier == "quick" else 5000, seed=seed, tier=tier)
+        res = vf.tlc_trace(work, "Trace_Dist", trace, cfg=write_cfg(work, "Trace_Dist.cfg", invariants=["Done"]))
+        dist_account(v, trace, res, prop)
+        v.assumptions += ["TLC and the CommunityModules evaluate TLA+ correctly", "java.lang.Math log/pow are accurate to 1e-9 relative"]
+    return run
+
+
+PIPELINES["C07"] = _dist("C07")
